@@ -9,6 +9,8 @@ import QR.Spec.Render
 import QR.Model.Release
 import QR.Spec.Release
 import QR.Model.QRObject
+import QR.Model.Svg
+import QR.Model.Cli
 /-
 Line-protocol driver (native executable `qrdrv`, Mathlib-free).
 One request per line: `<op> <arg> ...` (whitespace separated); one reply per line.
@@ -145,6 +147,26 @@ def objRun (ctor : String) (ops : String) (warm : String) : Option String := do
       let (st, outs) := run (g0, s0) ops
       pure ("ok " ++ "|".intercalate (outs.map fmtOut) ++ " " ++ fmtState st.2 ++ " G:" ++ fmtList ((st.1.blanks.map (·.1)).mergeSort))
   | _ => none
+
+def parseSvgFactory (s : String) : Option SvgFactory :=
+  match s with
+  | "fragment" => some .fragment | "image" => some .image | "fill" => some .fill
+  | "path" => some .path | "pathfill" => some .pathFill | _ => none
+
+def parseDrawer (k n d : String) : Option SvgDrawer := do
+  let kind ← match k with | "square" => some SvgDrawerKind.square | "circle" => some SvgDrawerKind.circle | _ => none
+  pure { kind := kind, num := ← parseNat n, den := ← parseNat d }
+
+def fmtShape (p : Nat × SvgShape) : String :=
+  match p.2 with
+  | .rect x y w h => s!"{p.1}:rect:{x}:{y}:{w}:{h}"
+  | .circle cx cy r => s!"{p.1}:circle:{cx}:{cy}:{r}"
+  | .pathSquare x0 y0 x1 y1 => s!"{p.1}:psq:{x0}:{y0}:{x1}:{y1}"
+  | .pathCircle x0 yh x1 h => s!"{p.1}:pci:{x0}:{yh}:{x1}:{h}"
+
+def optStr (s : String) : Option String := if s = "-" then none else some s
+
+def fmtSegList (l : List Seg) : String := if l.isEmpty then "-" else ";".intercalate (l.map fun s => s!"{s.mode}:{fmtList s.data}")
 
 def reply (r : R String) : String :=
   match r with
@@ -313,6 +335,22 @@ def handle (toks : List String) : Option String :=
       let t ← parseHexStr t
       pure (fmtOptMods (Spec.readTty (t.toList.map Char.toNat)))
   | ["obj", ctor, ops, warm] => objRun ctor ops warm
+  | ["svgdoc", f, mk, mn, md, ek, en, ed, w, b, box, m] => do
+      let f ← parseSvgFactory f; let mdr ← parseDrawer mk mn md; let edr ← parseDrawer ek en ed
+      let w ← parseNat w; let b ← parseNat b; let box ← parseNat box; let m ← parseBMat m
+      let doc := svgDoc f mdr edr m w b box
+      pure s!"ok {doc.pixelSize} {if doc.viewBox then 1 else 0} {if doc.background then 1 else 0} {if doc.shapes.isEmpty then "-" else ";".intercalate (doc.shapes.map fmtShape)}"
+  | ["cli", fac, drw, opt, lvl, asc, outp, arg, stdin, tty, imp] => do
+      let opt ← if opt = "-" then some none else (parseNat opt).map some
+      let asc ← parseBool asc; let tty ← parseBool tty; let imp ← parseBool imp
+      let arg ← if arg = "none" then some none else (parseList arg).map some
+      let stdin ← parseList stdin
+      let i : CliInput := { factory := optStr fac, drawer := optStr drw, optimize := opt, level := lvl, ascii := asc,
+                            output := optStr outp, arg := arg, stdin := stdin, stdoutIsTty := tty, importable := imp }
+      pure (match cli i with
+        | .fail => "ok fail"
+        | .ascii t l segs => s!"ok ascii {if t then 1 else 0} {l} {fmtSegList segs}"
+        | .image f d l segs sink => s!"ok image {f.getD "-"} {d.getD "-"} {l} {fmtSegList segs} {match sink with | .stdout => "stdout" | .file p => "file:" ++ p}")
   | ["spec.penalty", m] => do let m ← parseBMat m; pure ("ok " ++ toString (Spec.penalty m))
   | ["spec.n1", m] => do let m ← parseBMat m; pure ("ok " ++ toString (Spec.N1 m m.length))
   | ["spec.n2", m] => do let m ← parseBMat m; pure ("ok " ++ toString (Spec.N2 m))
